@@ -25,3 +25,9 @@ def run(report, tier):
                        "daughters, empty tables, names with EvtGen-specific spellings) + a chain from DecayChain.to_dict(); up to 4 graphs per path",
                 functions=FUNCS, timeout=900 if tier == "thorough" else 600, sample={"chain": "B0sig -> MyD*- K_1(1270)+ ...", "lines": 7})
     chrun.run_harness(report, h)
+    hn = Harness(name="graph-names", module="harness.c15", body="body_names", sig="sel: int", n_sel=H.N_NAMES, concrete_body=True,
+                 claim="with every EvtGen name as a daughter cell (HTML spellings with entities, sub/superscripts, primes) the graph keeps the "
+                       "line structure and the source is accepted by dot",
+                 bounds=f"all {len(H.EVT)} EvtGen names, {H.CHUNK} per graph (one decaying daughter + a second line), every graph through dot -Tcanon",
+                 functions=FUNCS, timeout=300, sample={"names": H.EVT[100:103]})
+    chrun.run_harness(report, hn)
